@@ -32,6 +32,9 @@ PROPS = {
  "C11": ("exploration", "Print-then-parse round trip: each abstract specification is rendered several ways (header/builder flags, CRLF, comments, gratuitous lex escapes, spellings) and the built definition's rules, start states, spans, behaviour (vs the reference lexer compiled from the abstract regexes, incl. size/nest limits) and error spans of broken renderings are compared with the abstract specification.",
          "Trusted: renderer + reference lexer; StartState's Debug output for kind/id.",
          "runtime monitoring: round-trip law monitor (abstract spec -> text -> definition) with behavioural probes", "DESIGN.md §4 C11"),
+ "C10": ("exploration", "Print-then-parse round trip: each decorated abstract grammar is rendered in many layouts and syntaxes and every public accessor of the built YaccGrammar (plus spans) is compared with the abstract grammar; sampled grammars x renderings.",
+         "Trusted: the renderer's record of what it printed where. Token numbering order, action spans and the added start production's span are not asserted.",
+         "runtime monitoring: round-trip law monitor (abstract grammar -> text -> YaccGrammar accessors)", "DESIGN.md §4 C10"),
  "C16": ("exploration", "Every state x token x rule of every generated table: state_actions/state_shifts/core_reduces/reduce_only_state/goto vs action() and the graph's edges, reachability of all states, and every closed state vs a reference LR(1) closure of its core. Exhaustive over cells per generated grammar; grammars are sampled.",
          "Trusted: harness FIRST/nullable/closure.",
          "runtime monitoring: invariant checks on the live state graph and table at the quiescent point after construction", "DESIGN.md §4 C16"),
